@@ -29,16 +29,20 @@ NONAME = "none"
 NOSENDER = "nobody"
 TRACE_CLIENTS = ["c1", "c2", "c3", "c4", "c5", "c6"]
 TRACE_DEVS = ["d1", "d2", "d3", "d4", "d5"]
-TRACE_NAMES = ["A", "B", "C", "D", "U"]
+TRACE_NAMES = ["A", "B", "C", "D", "U", "AB", ""]          # "AB" contains another device name; "" is a name like any other
 
 
 # ------------------------------------------------------------------ real endpoints (recording)
 class RecClient(RoutingClient):
+    world: Any = None
+
     def __init__(self, ident: str, log: list):
         self.ident, self.log = ident, log
 
     def message_from_device(self, message):
         self.log.append(["cli", self.ident, message])
+        if self.world is not None:
+            self.world.react(self, message)
 
 
 def make_device(ident: str, accepts: str, log: list):
@@ -49,6 +53,8 @@ def make_device(ident: str, accepts: str, log: list):
 
             def message_from_client(self, message):
                 log.append(["dev", ident, message])
+                if getattr(self, "world", None) is not None:
+                    self.world.react(self, message)
         dev = RecProxy()
     else:
         class RecDriver(Driver):
@@ -56,6 +62,8 @@ def make_device(ident: str, accepts: str, log: list):
 
             def message_from_client(self, message):
                 log.append(["dev", ident, message])
+                if getattr(self, "world", None) is not None:
+                    self.world.react(self, message)
         dev = RecDriver()
     dev.ident = ident
     return dev
@@ -107,6 +115,22 @@ class World:
         self.cli = {c: RecClient(c, self.log) for c in client_ids}
         self.events: List[dict] = []
         self.raised: Optional[str] = None
+        for e in list(self.dev.values()) + list(self.cli.values()):
+            e.world = self
+        self.reactions: Dict[str, Tuple[str, str]] = {}     # endpoint -> (kind, name) it sends when it is handed the message in flight
+        self.nested: List[Tuple[str, str, str, Any]] = []
+
+    def react(self, endpoint, message) -> None:
+        """an endpoint talks back to the router from inside its callback (one level deep)"""
+        if message is not getattr(self, "sent", None):
+            return
+        rx = self.reactions.get(endpoint.ident)
+        if rx is None:
+            return
+        k2, n2 = rx
+        m2 = KINDS[k2](n2, "none")
+        self.nested.append((endpoint.ident, k2, n2, m2))
+        self.router.process_message(m2, endpoint)
 
     def _ident(self, obj) -> str:
         return getattr(obj, "ident", "?")
@@ -144,6 +168,8 @@ class World:
             elif op == "msg":
                 msg = KINDS[st["k"]](st["n"], st["v"])
                 self.sent = msg
+                self.reactions = {e: (k2, n2) for e, k2, n2 in st.get("react", [])}
+                del self.nested[:]
                 self.router.process_message(msg, self.endpoint(st["s"]))
             else:
                 raise ValueError(op)
@@ -151,9 +177,17 @@ class World:
             self.raised = f"{type(e).__name__}: {e}"
             ev["raised"] = self.raised
         dl = []
+        nested_msgs = {id(m2): i for i, (_, _, _, m2) in enumerate(self.nested)} if op == "msg" else {}
+        subs = [{"s": s2, "k": k2, "n": n2, "dlv": []} for s2, k2, n2, _ in self.nested] if op == "msg" else []
         for side, ident, m in self.log:
-            dl.append([side, ident if (op != "msg" or m is self.sent) else ident + "!othermsg"])
+            if id(m) in nested_msgs:
+                subs[nested_msgs[id(m)]]["dlv"].append([side, ident])
+            else:
+                dl.append([side, ident if (op != "msg" or m is self.sent) else ident + "!othermsg"])
         ev["dlv"] = dl
+        if op == "msg":
+            ev["subs"] = subs
+            self.reactions = {}
         ev.update(self.project())
         self.events.append(ev)
 
@@ -196,7 +230,7 @@ def random_history(r, length: int) -> Tuple[Dict[str, str], List[dict]]:
     ncli = r.randint(1, 6)
     devs = TRACE_DEVS[:ndev]
     clis = TRACE_CLIENTS[:ncli]
-    accept = {d: r.choice(["A", "B", "C", "D", "*"]) for d in TRACE_DEVS}
+    accept = {d: r.choice(["A", "B", "C", "D", "AB", "*"]) for d in TRACE_DEVS}
     stim: List[dict] = []
     registered_c: List[str] = []
     registered_d: List[str] = []
@@ -227,7 +261,19 @@ def random_history(r, length: int) -> Tuple[Dict[str, str], List[dict]]:
                 k = r.choice(CLIENT_KINDS)
                 s = r.choice((registered_c or clis) + [NOSENDER] + devs[:1])
             n = r.choice(TRACE_NAMES + [NONAME])
-            stim.append(msg_stim(s, k, n, r.choice(["Never", "Also", "Only"])))
+            st = msg_stim(s, k, n, r.choice(["Never", "Also", "Only"]))
+            if r.random() < 0.35:
+                # some endpoints answer from inside their callback: devices with a device message (a driver replying, a snooped
+                # driver publishing), clients with a client message or - snooping drivers - with a device message of their own
+                rx = []
+                for e in r.sample(devs + clis, min(len(devs + clis), r.randint(1, 3))):
+                    if e in devs:
+                        k2 = r.choice(DEVICE_KINDS + ["setBLOBVector"] * 3)
+                    else:
+                        k2 = r.choice(["getProperties", "newTextVector", "setBLOBVector", "setNumberVector", "defTextVector", "message"])
+                    rx.append([e, k2, NONAME if k2 in NO_DEVICE_ATTR else r.choice(TRACE_NAMES + [NONAME])])
+                st["react"] = rx
+            stim.append(st)
     return accept, stim
 
 
